@@ -361,7 +361,17 @@ pub fn resolve<'a>(sf: &'a SourceFile, path: &str) -> std::result::Result<Cur<'a
                     if self.hit.is_none() {
                         let texts: Vec<String> = blk.stmts.iter().map(|s| norm(self.sf.slice(self.sf.range(s.span())))).collect();
                         if let Some(i) = texts.iter().position(|t| t.starts_with(&self.wa)) {
-                            if let Some(j) = texts.iter().skip(i).position(|t| t.starts_with(&self.wb)) {
+                            if self.wb == "$" {
+                                // `A .. $`: through the last statement before the block's tail expression
+                                let mut end = blk.stmts.len();
+                                if let Some(Stmt::Expr(_, None)) = blk.stmts.last() {
+                                    end -= 1;
+                                }
+                                if end > i {
+                                    self.hit = Some(&blk.stmts[i..end]);
+                                    return;
+                                }
+                            } else if let Some(j) = texts.iter().skip(i).position(|t| t.starts_with(&self.wb)) {
                                 self.hit = Some(&blk.stmts[i..=i + j]);
                                 return;
                             }
